@@ -213,6 +213,32 @@ func (w *World) LenEv(h *StoreH, name string, ft *memfile.Fault) bool {
 	return true
 }
 
+// EnumEv runs VisitItemsAscendBlockEx (random mangler) or VisitItemsRandom.
+func (w *World) EnumEv(h *StoreH, name string, random bool) bool {
+	c := w.coll(h, name)
+	rev := Reversed(name, w.cmpByName())
+	ev := Ev{"e": "Enum", "s": h.ID, "c": w.U.NameID(name), "random": random}
+	keys := []int{}
+	var err error
+	w.begin(h, nil)
+	if !w.guard("enumeration", "C16", func() {
+		v := func(i *gkvlite.Item, d uint64) bool {
+			keys = append(keys, w.U.KeyID(i.Key, rev))
+			return true
+		}
+		if random {
+			err = c.VisitItemsRandom(v)
+		} else {
+			err = c.VisitItemsAscendBlockEx(w.rng.Intn(2) == 0, gkvlite.RandBm, v)
+		}
+	}) {
+		return false
+	}
+	ev["keys"], ev["err"] = keys, err != nil
+	w.end(h, ev, nil)
+	return true
+}
+
 // targetFor maps a target id (0 = below all, K+1 = above all, else a key of
 // the universe) to bytes under the collection's order.
 func (w *World) targetFor(name string, tid int) []byte {
